@@ -21,29 +21,43 @@ type GraphOpts struct {
 }
 
 type gctx struct {
-	t       *rapid.T
-	g       *ref.Graph
-	order   []string
-	hints   map[*ref.SNode][]*ref.Value // values the node is known to accept (regex samples, ...)
-	keyType int
-	opts    GraphOpts
+	t          *rapid.T
+	g          *ref.Graph
+	order      []string
+	setHints   map[*ref.SRule][]*ref.Value
+	arrayHeavy bool
+	hints      map[*ref.SNode][]*ref.Value // values the node is known to accept (regex samples, ...)
+	keyType    int
+	opts       GraphOpts
 }
 
 type GraphCase struct {
 	G     *ref.Graph
 	Order []string // type names in generation order (key types included)
 	Hints map[*ref.SNode][]*ref.Value
+	// SetHints: probe values for an inline rule set of an `or`, keyed by its first rule
+	SetHints map[*ref.SRule][]*ref.Value
 }
 
 var graphKeys = []string{"a", "b", "c", "id", "n", "x y", "é"}
 
 func GenGraph(t *rapid.T, o GraphOpts, label string) *GraphCase {
-	c := &gctx{t: t, g: &ref.Graph{Types: map[string]*ref.SNode{}}, hints: map[*ref.SNode][]*ref.Value{}, opts: o}
+	c := &gctx{t: t, g: &ref.Graph{Types: map[string]*ref.SNode{}}, hints: map[*ref.SNode][]*ref.Value{}, setHints: map[*ref.SRule][]*ref.Value{}, opts: o}
 	n := rapid.IntRange(1, o.MaxTypes).Draw(t, label+"NTypes")
+	// array-heavy graphs: several array types side by side whose items are positions with
+	// overlapping alternatives, and item-count rules (several structured candidates alive at once)
+	c.arrayHeavy = rapid.IntRange(0, 5).Draw(t, label+"ArrayHeavy") == 0
+	if c.arrayHeavy && n < 4 {
+		n = 4
+	}
 	for i := 0; i < n; i++ {
 		name := fmt.Sprintf("@t%d", i)
 		var node *ref.SNode
 		switch k := rapid.IntRange(0, 9).Draw(t, label+"TypeKind"); {
+		case c.arrayHeavy && i < 2:
+			node = c.scalarType(label + "S")
+		case c.arrayHeavy:
+			node = c.arrayNode(i, name, 1, label+"A")
 		case k <= 2:
 			node = c.scalarType(label + "S")
 		case k <= 7:
@@ -56,15 +70,19 @@ func GenGraph(t *rapid.T, o GraphOpts, label string) *GraphCase {
 	}
 	c.g.KeysOptional = rapid.IntRange(0, 4).Draw(t, label+"KeysOpt") == 0
 	// root: biased to an object that uses several types
-	switch rapid.IntRange(0, 5).Draw(t, label+"RootKind") {
-	case 0:
+	arrs := c.earlier(n, func(t *ref.SNode) bool { return t.Kind == ref.SArr })
+	switch rk := rapid.IntRange(0, 5).Draw(t, label+"RootKind"); {
+	case c.arrayHeavy && len(arrs) >= 2 && rk <= 3:
+		perm := rapid.Permutation(arrs).Draw(t, label+"RootArrs")
+		c.g.Root = &ref.SNode{Kind: ref.SRef, Names: perm[:rapid.IntRange(2, len(perm)).Draw(t, label+"RootArrN")]}
+	case rk == 0:
 		c.g.Root = c.valueNode(n, "", 2, false, label+"R")
-	case 1:
+	case rk == 1:
 		c.g.Root = c.arrayNode(n, "", 2, label+"RA")
 	default:
 		c.g.Root = c.objectNode(n, "", 2, true, label+"RO")
 	}
-	return &GraphCase{G: c.g, Order: c.order, Hints: c.hints}
+	return &GraphCase{G: c.g, Order: c.order, Hints: c.hints, SetHints: c.setHints}
 }
 
 func (c *gctx) draw(lo, hi int, label string) int { return rapid.IntRange(lo, hi).Draw(c.t, label) }
@@ -286,11 +304,26 @@ func (c *gctx) objectNode(i int, self string, depth int, top bool, label string)
 func (c *gctx) arrayNode(i int, self string, depth int, label string) *ref.SNode {
 	n := &ref.SNode{Kind: ref.SArr}
 	cnt := c.draw(0, 2, label+"N")
+	if c.arrayHeavy {
+		cnt = c.draw(1, 3, label+"NH")
+	}
 	for k := 0; k < cnt; k++ {
 		n.Items = append(n.Items, c.valueNode(i, self, depth-1, false, fmt.Sprint(label, "I", k)))
 	}
 	if self != "" && c.opts.Recursion && c.draw(0, 3, label+"Self") == 0 {
 		n.Items = append(n.Items, &ref.SNode{Kind: ref.SRef, Names: []string{self}})
+	}
+	if c.arrayHeavy && len(n.Items) > 0 {
+		switch c.draw(0, 3, label+"CountRule") {
+		case 0:
+			n.Rules = append(n.Rules, TokRule("minItems", strconv.Itoa(c.draw(0, len(n.Items), label+"Min"))))
+		case 1:
+			n.Rules = append(n.Rules, TokRule("maxItems", strconv.Itoa(len(n.Items)+c.draw(0, 2, label+"Max"))))
+		case 2:
+			n.Rules = append(n.Rules, TokRule("minItems", strconv.Itoa(c.draw(0, len(n.Items), label+"Min"))),
+				TokRule("maxItems", strconv.Itoa(len(n.Items)+c.draw(0, 2, label+"Max"))))
+		}
+		return n
 	}
 	if len(n.Items) > 0 && c.draw(0, 3, label+"ItemsRule") == 0 {
 		n.Rules = append(n.Rules, TokRule("maxItems", strconv.Itoa(len(n.Items)+c.draw(0, 2, label+"Max"))))
@@ -389,6 +422,38 @@ func (c *gctx) orNode(i int, label string) *ref.SNode {
 				haveExample = true
 			}
 		default: // inline rule set
+			if c.draw(0, 2, fmt.Sprint(label, "Rich", k)) == 0 {
+				// a rule set taken from the scalar-rule generator (bounds with exclusive flags, lengths,
+				// regex, precision, formats ...) with an explicit type for its kind
+				sn, probes := ScalarCase(c.t, fmt.Sprint(label, "RichSet", k))
+				if sn.Rule("enum") == nil && sn.Rule("const") == nil && sn.Rule("nullable") == nil && len(sn.Rules) > 0 {
+					rules := append([]ref.SRule(nil), sn.Rules...)
+					if sn.TypeName() == "" {
+						tn := map[ref.Kind]string{ref.KString: "string", ref.KTrue: "boolean", ref.KFalse: "boolean", ref.KNull: "null"}[sn.Lit]
+						if sn.Lit == ref.KNumber {
+							tn = "float"
+							if ref.SchemaNumberIsInteger(sn) {
+								tn = "integer"
+							}
+							if sn.Rule("precision") != nil {
+								tn = "decimal"
+							}
+						}
+						rules = append(rules, StrRule("type", tn))
+					}
+					items = append(items, ref.OrItem{Rules: rules})
+					for _, p := range probes {
+						if p.Val.Kind != ref.KObject && p.Val.Kind != ref.KArray {
+							c.setHints[&rules[0]] = append(c.setHints[&rules[0]], p.Val)
+						}
+					}
+					if !haveExample {
+						n.Lit, n.Tok, n.Str = sn.Lit, sn.Tok, sn.Str
+						haveExample = true
+					}
+					continue
+				}
+			}
 			switch c.draw(0, 2, fmt.Sprint(label, "Set", k)) {
 			case 0:
 				lo := c.draw(0, 5, fmt.Sprint(label, "Lo", k))
@@ -464,6 +529,11 @@ func (gc *GraphCase) Instance(t *rapid.T, n *ref.SNode, keysOpt bool, budget int
 			}
 			return ScalarOfKind(t, k, label+"OK")
 		default:
+			if len(it.Rules) > 0 {
+				if hs := gc.SetHints[&it.Rules[0]]; len(hs) > 0 {
+					return Clone(rapid.SampledFrom(hs).Draw(t, label+"SH"))
+				}
+			}
 			return ruleSetInstance(t, it.Rules, label+"RS")
 		}
 	}
@@ -518,10 +588,14 @@ func ruleSetInstance(t *rapid.T, rules []ref.SRule, label string) *ref.Value {
 	if mn, mx := pseudo.Rule("min"), pseudo.Rule("max"); mn != nil || mx != nil {
 		lo, hi := -3, 12
 		if mn != nil {
-			lo, _ = strconv.Atoi(mn.Tok)
+			if v, err := strconv.Atoi(mn.Tok); err == nil && v > -1000000 && v < 1000000 {
+				lo = v
+			}
 		}
 		if mx != nil {
-			hi, _ = strconv.Atoi(mx.Tok)
+			if v, err := strconv.Atoi(mx.Tok); err == nil && v > -1000000 && v < 1000000 {
+				hi = v
+			}
 		}
 		if hi < lo {
 			hi = lo
